@@ -77,12 +77,16 @@ func ProcessTraceIngest(ctx *fasthttp.RequestCtx, myid int64) {
 	defer segwriter.ReleasePLEs(pleArray)
 
 	for _, resourceSpans := range request.ResourceSpans {
-		// Find the service name.
+		// Find the service name; keep every resource attribute.
 		var service string
+		resourceAttrs := make(map[string]interface{})
 		if resourceSpans.Resource != nil {
 			for _, keyvalue := range resourceSpans.Resource.Attributes {
 				if keyvalue.Key == "service.name" {
 					service = keyvalue.Value.GetStringValue()
+				}
+				if key, value, err := extractKeyValue(keyvalue); err == nil {
+					resourceAttrs[key] = value
 				}
 			}
 		}
@@ -90,8 +94,20 @@ func ProcessTraceIngest(ctx *fasthttp.RequestCtx, myid int64) {
 		// Ingest each of these spans.
 		for _, scopeSpans := range resourceSpans.ScopeSpans {
 			numSpans += len(scopeSpans.Spans)
+			scopeInfo := make(map[string]interface{})
+			if scopeSpans.Scope != nil {
+				scopeInfo["name"] = scopeSpans.Scope.Name
+				scopeInfo["version"] = scopeSpans.Scope.Version
+				scopeAttrs := make(map[string]interface{})
+				for _, keyvalue := range scopeSpans.Scope.Attributes {
+					if key, value, err := extractKeyValue(keyvalue); err == nil {
+						scopeAttrs[key] = value
+					}
+				}
+				scopeInfo["attributes"] = scopeAttrs
+			}
 			for _, span := range scopeSpans.Spans {
-				jsonData, err := spanToJson(span, service)
+				jsonData, err := spanToJson(span, service, resourceAttrs, scopeInfo)
 				if err != nil {
 					log.Errorf("ProcessTraceIngest: failed to marshal span %s: %v. Service name: %s", span, err, service)
 					numFailedSpans++
@@ -103,6 +119,10 @@ func ProcessTraceIngest(ctx *fasthttp.RequestCtx, myid int64) {
 					log.Errorf("ProcessTraceIngest: failed to get new PLE, jsonData: %v, err: %v", jsonData, err)
 					numFailedSpans++
 					continue
+				}
+				// the span's own time is its start time
+				if startMs := span.StartTimeUnixNano / 1_000_000; startMs > 0 {
+					ple.SetTimestamp(startMs)
 				}
 				pleArray = append(pleArray, ple)
 			}
@@ -131,8 +151,14 @@ func unmarshalTraceRequest(data []byte) (*coltracepb.ExportTraceServiceRequest, 
 	return &trace, nil
 }
 
-func spanToJson(span *tracepb.Span, service string) ([]byte, error) {
+func spanToJson(span *tracepb.Span, service string, resourceAttrs map[string]interface{}, scopeInfo map[string]interface{}) ([]byte, error) {
 	result := make(map[string]interface{})
+	if len(resourceAttrs) > 0 {
+		result["resource"] = map[string]interface{}{"attributes": resourceAttrs}
+	}
+	if len(scopeInfo) > 0 {
+		result["scope"] = scopeInfo
+	}
 	result["trace_id"] = hex.EncodeToString(span.TraceId)
 	result["span_id"] = hex.EncodeToString(span.SpanId)
 	result["parent_span_id"] = hex.EncodeToString(span.ParentSpanId)
